@@ -249,6 +249,12 @@ def prunable(tool, info):
             r = verus.enclosing(info.region_ranges, a)
             if r and r[2] == 'ghost' and getattr(info, 'ghost_kinds', {}).get(r[3]) == 'impl':
                 out.add(r[3])
+            if r and r[2] == 'blk' and not verus.enclosing(info.fn_ranges, a):
+                # an impl block that no longer type-checks as a whole (e.g. `impl Error for E {}` after the Display impl it
+                # needs had to be left out): leave it out too, unless a contract sits on one of its functions
+                hdr = r[3].split('|')[1]
+                if not any(f['has_contract'] and f['key'].startswith(hdr + '::') for f in info.functions):
+                    out.add('blk:' + r[3])
     return out
 
 
@@ -390,8 +396,14 @@ def main(argv=None):
             # the verifier cannot read these functions: leave them unverified and decide the rest; a function that is still
             # rejected as external_body (its very signature is unsupported) is hidden from the verifier altogether
             opaque |= new
-            external |= set(k for k in again if ' for ' not in k)   # an item of a trait impl cannot be hidden individually
-            if not new and not (again - set(k for k in again if ' for ' in k)):
+            # an item of a trait impl cannot be hidden individually; it, and anything still rejected although hidden (the
+            # `verus!` macro itself refuses its syntax), is left out of the verified text altogether
+            stuck = set('fn:' + k for k in again if ' for ' in k) | set('fn:' + k for k in (off & external))
+            newly_external = set(k for k in again if ' for ' not in k) - external
+            external |= newly_external
+            newly_stuck = stuck - dropped
+            dropped |= newly_stuck
+            if not new and not newly_external and not newly_stuck:
                 break
         # refine failing coarse units cell by cell so that the failing cells are named
         coarse_failed = sorted(set(R[f.oid]['unit'] for f in mine if f.oid in R and R[f.oid]['kind'] == 'coarse' and f.kind == 'semantic'))
@@ -433,6 +445,12 @@ def main(argv=None):
             undecided_reasons.append('lost-anchor: ghost section(s) with no matching item: ' + ', '.join(info.lost_ghosts))
         if opaque_here:
             undecided_reasons.append('function(s) outside the verifier\'s dialect, left unverified: ' + ', '.join(opaque_here))
+        if prop == 'C08' and any(f.oid == '<unattributed>/safety' for f in other):
+            undecided_reasons.append('verification failure in executable code that belongs to no function the extractor knows (macro-generated items): ' +
+                                     '; '.join(sorted(set(f.message[:80] for f in other if f.oid == '<unattributed>/safety'))[:3]))
+        excluded_here = sorted(k for k in getattr(info, 'excluded', []) if prop == 'C08' and k not in opaque_here)
+        if excluded_here:
+            undecided_reasons.append('function(s) whose syntax the verifier rejects, left out of the verified text: ' + ', '.join(excluded_here))
         dropped_here = sorted(oid for oid, ps in getattr(info, 'dropped_clauses', []) if prop in ps or prop == 'C08')
         if dropped_here:
             undecided_reasons.append('contract clause(s) that no longer compile against the changed code (its state representation differs from the one the ghost view reads): ' + ', '.join(dropped_here[:8]))
